@@ -7,6 +7,7 @@ package c06
 
 import (
 	"bytes"
+	"encoding/binary"
 	"fmt"
 	"sort"
 	"strings"
@@ -36,6 +37,7 @@ type mutant struct {
 }
 
 type snapshot struct {
+	trie   string // first disagreement between GetState(current root) and contract storage ("" = none)
 	dump   map[string][]byte
 	obs    *vchain.Observation
 	pool   string
@@ -55,7 +57,42 @@ func poolString(r *vchain.Replica) string {
 
 func snap(r *vchain.Replica, opts vchain.ObsOpts) *snapshot {
 	_ = r.Flush()
-	return &snapshot{dump: vchain.Dump(r.Store.Inner), obs: vchain.Observe(r.BC, opts), pool: poolString(r), hh: r.BC.HeaderHeight(), hhash: r.BC.CurrentHeaderHash(), height: r.BC.BlockHeight()}
+	s := &snapshot{dump: vchain.Dump(r.Store.Inner), obs: vchain.Observe(r.BC, opts), pool: poolString(r), hh: r.BC.HeaderHeight(), hhash: r.BC.CurrentHeaderHash(), height: r.BC.BlockHeight()}
+	s.trie = trieReads(r, opts, 48)
+	return s
+}
+
+// trieReads reads contract storage items through the state root of the current
+// height (the state service's view of the ledger state) and reports the first
+// one that differs from contract storage itself. At most limit keys per
+// contract are read (0 = all), spread evenly.
+func trieReads(r *vchain.Replica, opts vchain.ObsOpts, limit int) string {
+	sm := r.BC.GetStateModule()
+	root := sm.CurrentLocalStateRoot()
+	var ids []int32
+	for _, n := range r.BC.GetNatives() {
+		ids = append(ids, n.ID)
+	}
+	for i := int32(1); i <= opts.MaxContractID; i++ {
+		ids = append(ids, i)
+	}
+	for _, id := range ids {
+		kvs := vchain.StorageOf(r.BC, id)
+		step := 1
+		if limit > 0 && len(kvs) > limit {
+			step = len(kvs)/limit + 1
+		}
+		for i := 0; i < len(kvs); i += step {
+			k := make([]byte, 4, 4+len(kvs[i].K))
+			binary.LittleEndian.PutUint32(k, uint32(id))
+			k = append(k, kvs[i].K...)
+			v, err := sm.GetState(root, k)
+			if err != nil || !bytes.Equal(v, kvs[i].V) {
+				return fmt.Sprintf("contract %d key %x: storage %x, GetState(current root) %x (err %v)", id, kvs[i].K, kvs[i].V, v, err)
+			}
+		}
+	}
+	return ""
 }
 
 func clone(b *block.Block, srih bool) *block.Block {
@@ -607,6 +644,10 @@ func TestCheck(t *testing.T) {
 						run.Violation("rejected-block-changed-height:"+name, id, fmt.Sprintf("%d -> %d", before.height, after.height), wit)
 						dirty = true
 					}
+					if after.trie != "" && before.trie == "" {
+						run.Violation("rejected-block-changed-state-read-through-current-root:"+name, id, after.trie, wit)
+						dirty = true
+					}
 					if after.pool != before.pool {
 						run.Violation("rejected-block-changed-mempool:"+name, id, fmt.Sprintf("%s -> %s", before.pool, after.pool), wit)
 						dirty = true
@@ -690,7 +731,10 @@ func TestCheck(t *testing.T) {
 							} else {
 								run.Obs("late_rejections", 1)
 								asnap := snap(lr, opts)
-								if asnap.height != bsnap.height {
+								run.Obs("late_rejection_state_reads_at_current_root", 1)
+								if tr := trieReads(lr, opts, 0); tr != "" && bsnap.trie == "" {
+									run.Violation("rejected-block-changed-state-read-through-current-root:late-rejection", id, tr, wit)
+								} else if asnap.height != bsnap.height {
 									run.Violation("rejected-block-changed-height:late-rejection", id, fmt.Sprintf("%d -> %d", bsnap.height, asnap.height), wit)
 								} else if d := vchain.DiffDumps(bsnap.dump, asnap.dump, nil); d != "" {
 									run.Violation("rejected-block-changed-database:late-rejection", id, d, wit)
